@@ -51,7 +51,7 @@ SAFE_BUILTINS = {
 }
 SAFE_ATTR_CALLS = {
     're.escape': re.escape, 're.compile': re.compile, 're.match': re.match, 're.fullmatch': re.fullmatch, 're.search': re.search,
-    're.sub': re.sub, 'json.dumps': json.dumps, 'shlex.quote': shlex.quote, 'shlex.split': shlex.split, 'shlex.join': shlex.join,
+    're.sub': re.sub, 'json.dumps': json.dumps, 'json.loads': json.loads, 'shlex.quote': shlex.quote, 'shlex.split': shlex.split, 'shlex.join': shlex.join,
     'os.path.splitext': os.path.splitext, 'os.path.basename': os.path.basename, 'os.path.dirname': os.path.dirname,
     'os.path.join': os.path.join, 'os.path.isabs': os.path.isabs, 'os.path.normpath': os.path.normpath,
 }
